@@ -137,6 +137,49 @@ InsertRows(st, t, news) ==
       /\ (\A f \in Idxs(T.fks) : \A i \in Idxs(news) : FkRowOk(st2, T, T.fks[f], news[i]))
    THEN [ok |-> TRUE, st |-> st2] ELSE [ok |-> FALSE, st |-> st]
 
+\* ---------- INSERT variants that resolve key conflicts: REPLACE INTO and INSERT ... ON DUPLICATE KEY UPDATE ----------
+\* The rows of the statement are handled one after the other against the table as the earlier rows left it.  A row
+\* CONFLICTS with the stored rows that equal it on the primary key or on a UNIQUE constraint whose key has no NULL.
+\*   REPLACE: the conflicting rows are deleted (as by DELETE), then the row is inserted.
+\*   ON DUPLICATE KEY UPDATE: without a conflict the row is inserted; with one, the conflicting row is updated by the
+\*   assignments instead - a column reference means the stored row, VALUES(c) (kind "dkv") the row that was to be inserted.
+\*   A row that conflicts with several stored rows is left open ("unmodelled": dialects pick different ones).
+\* Every constraint must hold after each row; if any row fails the whole statement fails and changes nothing.  The
+\* affected-row count is dialect business (MySQL counts a replaced row twice): cnt = -1 means "any".
+ConflictsWith(T, r) ==
+   LET keys == (IF T.pk = <<>> THEN {} ELSE {T.pk}) \cup Range(T.uqs) IN
+   { i \in Idxs(T.rows) : \E k \in keys : ~HasNullKey(KeyOf(T, k, r)) /\ RowEq(KeyOf(T, k, T.rows[i]), KeyOf(T, k, r)) }
+RECURSIVE Dkv(_,_,_)
+Dkv(e, T, r) == IF e.k = "dkv" THEN Lit(r[ColIdx(T, e.c)])
+                ELSE IF e.k = "arith" THEN [e EXCEPT !.l = Dkv(e.l, T, r), !.r = Dkv(e.r, T, r)] ELSE e
+RECURSIVE UpsertGo(_,_,_,_)
+UpsertGo(st, a, news, i) ==
+   IF i > Len(news) THEN [out |-> "ok", st |-> st] ELSE
+   LET T == st.tabs[a.t] r == news[i] conf == ConflictsWith(T, r)
+       ins(s) == LET x == InsertRows(s, a.t, <<r>>) IN IF x.ok THEN UpsertGo(x.st, a, news, i + 1) ELSE [out |-> "err", st |-> st]
+   IN IF conf = {} THEN ins(st)
+      ELSE IF a.mode = "replace" THEN
+           LET d == DeleteRows(st, a.t, conf, 3) IN IF d.ok THEN ins(d.st) ELSE [out |-> "err", st |-> st]
+      ELSE IF Cardinality(conf) > 1 THEN [out |-> "unmodelled", st |-> st]
+      ELSE LET p == CHOOSE p \in conf : TRUE
+               old == T.rows[p]
+               new == [c \in Idxs(T.cols) |->
+                         IF \E j \in Idxs(a.set) : a.set[j].c = T.cols[c].n
+                         THEN Ev(Dkv(a.set[CHOOSE j \in Idxs(a.set) : a.set[j].c = T.cols[c].n].e, T, r), RowEnv(a.t, T, old), <<>>, DbOf(st))
+                         ELSE old[c]]
+               rows2 == [T.rows EXCEPT ![p] = new]
+               st2 == SetRows(st, a.t, rows2)
+           IN IF (\E j \in Idxs(a.set) : ~HasCol(T, a.set[j].c)) THEN [out |-> "err", st |-> st]
+              ELSE IF RowsWellTyped(T, <<new>>) /\ TableOk(st2, a.t, T, rows2)
+                      /\ (\A f \in Idxs(T.fks) : FkRowOk(st2, T, T.fks[f], new))
+                      \* (a changed key that other tables reference is outside this model)
+                      /\ ~(\E x \in Refs(st, a.t) : TRUE)
+                   THEN UpsertGo(st2, a, news, i + 1) ELSE [out |-> "err", st |-> st]
+DoUpsert(st, a, news) ==
+   IF \E i \in Idxs(st.trg) : st.trg[i].t = a.t THEN Res("unmodelled", st, 0) ELSE
+   LET r == UpsertGo(st, a, news, 1) IN
+   IF r.out = "ok" THEN Ok(r.st, -1) ELSE IF r.out = "err" THEN Fail(st) ELSE Res("unmodelled", st, 0)
+
 DoInsert(st, a) ==
    IF a.t \notin DOMAIN st.tabs THEN Fail(st) ELSE
    LET T == st.tabs[a.t]
@@ -144,7 +187,10 @@ DoInsert(st, a) ==
    IF (\E i \in Idxs(a.rows) : Len(a.rows[i]) # arity) \/ (\E j \in Idxs(a.cols) : ~HasCol(T, a.cols[j])) THEN Fail(st) ELSE
    LET news == [i \in Idxs(a.rows) |-> BuildRow(st, a.t, T, a.cols, a.rows[i])]
        r == InsertRows(st, a.t, news)
-   IN IF r.ok THEN [Ok(r.st, Len(news)) EXCEPT !.aff = [i \in Idxs(news) |-> [old |-> <<>>, new |-> news[i]]]] ELSE Fail(st)
+   IN IF "mode" \in DOMAIN a /\ a.mode \in {"replace", "odku"}
+      THEN (IF RowsWellTyped(T, news) THEN DoUpsert(st, a, news) ELSE Fail(st))
+      ELSE
+      IF r.ok THEN [Ok(r.st, Len(news)) EXCEPT !.aff = [i \in Idxs(news) |-> [old |-> <<>>, new |-> news[i]]]] ELSE Fail(st)
 
 DoInsertSelect(st, a) ==
    IF a.t \notin DOMAIN st.tabs THEN Fail(st) ELSE
